@@ -8,8 +8,7 @@ VERUS_FLAGS = ['--no-lifetime']
 VERIFY_MODULES = ['portfolio::misc', 'portfolio::splits']
 
 
-def build(ctx):
-    p = bk.parts(ctx)
+def ord_parts(ctx):
     misc = Src(ctx, 'portfolio/misc.rs').cut_tests().standard()
     misc.replace("txs_by_sec.get_mut(&tx.security).unwrap().push(tx);",
                  "let __v = txs_by_sec.get_mut(&tx.security).unwrap();\n        __v.push(tx);", 'R22')
@@ -20,8 +19,14 @@ def build(ctx):
                "hole_set_to_vec(find_all_non_global_affiliates(sorted_security_txs));", 'H')
     sp.replace("if !non_global_affiliates.contains(af) {", "if !hole_contains(&non_global_affiliates, af) {", 'H')
     sp.replace("for &idx in split_indices.iter().rev() {", "for __r in split_indices.iter().rev() {\n        let idx = *__r;", 'R8')
+    return dict(mods=mod('misc', misc.text()) + mod('splits', sp.text()) + 'pub use self::misc::*;\n')
+
+
+def build(ctx):
+    p = bk.parts(ctx)
+    o = ord_parts(ctx)
     return (shim('base', 'std') + "verus! {\n"
-            + bk.assemble(p, extra_portfolio=mod('misc', misc.text()) + mod('splits', sp.text()) + 'pub use self::misc::*;\n')
+            + bk.assemble(p, extra_portfolio=o['mods'])
             + "} // verus!\nfn main() {}\n")
 
 
